@@ -542,6 +542,10 @@ func runC14(c *engine.Ctx) {
 	checkDeferredUseOfResult(c, "R13")
 	// ---- R14 a peer that keeps sending heartbeats keeps getting answers (shared with C16.R27) ----
 	checkDeadlineCleared(c, "R14")
+	// ---- R15 a torn-down session leaves nothing registered (shared with C16.R28) ----
+	checkSyncStateHandlers(c, "R15")
+	// ---- R16 a refused login leaves nothing in the control manager (shared with C04.R6): the next login would wait for it ----
+	checkRefusalBeforeState(c, "R16")
 }
 
 // checkOIDCSubjects: the OIDC verifier is shared by all sessions of the server; VerifyLogin records the subject of every
